@@ -20,7 +20,7 @@ type c04 struct{ base }
 
 func init() {
 	runner.Register(&c04{base{id: "C04", level: "exploration",
-		rule: "per case: a table state from a seeded write history (as C02), then for a set of requests (Query and Scan on base table and every index, with and without filter, both directions, index entries with equal index keys) the implementation's own unpaginated result U is taken as the oracle (metamorphic, so tie order is compared exactly) and the request is walked with EVERY Limit 1..n+1 by passing LastEvaluatedKey as ExclusiveStartKey: concatenation = U exactly, every page <= Limit, number of pages bounded by entries+2 (bounded restatement of 'finitely many'), absent LastEvaluatedKey only when complete. Deletion variants on a replayed copy of the state: after page k delete the item named by LastEvaluatedKey (and, separately, a not-yet-returned item): the remaining pages must be exactly the not-deleted rest of U. non-trivial = walk has >=2 pages; distinct by (adapter, op, source, filter?, direction, Limit, pages, variant). Every third state is also walked with the native interpreter active and the key condition served by a registered Go matcher (with and without a filter, every Limit up to 12).",
+		rule: "per case: a table state from a seeded write history (as C02), then for a set of requests (Query and Scan on base table and every index, with and without filter, both directions, index entries with equal index keys) the implementation's own unpaginated result U is taken as the oracle (metamorphic, so tie order is compared exactly) and the request is walked with EVERY Limit 1..n+1 by passing LastEvaluatedKey as ExclusiveStartKey: concatenation = U exactly, every page <= Limit, number of pages bounded by entries+2 (bounded restatement of 'finitely many'), absent LastEvaluatedKey only when complete. Deletion variants on a replayed copy of the state: after page k delete the item named by LastEvaluatedKey (and, separately, a not-yet-returned item): the remaining pages must be exactly the not-deleted rest of U. non-trivial = walk has >=2 pages; distinct by (adapter, op, source, filter?, direction, Limit, pages, variant). Every third state is also walked with the native interpreter active and the key condition served by a registered Go matcher (with and without a filter, every Limit up to 12). A quarter of the states use partitions that are prefixes of one another continued by a character below '.' (p, p#q, p-q).",
 		assumptions: []string{"oracle = the implementation's own unpaginated answer (C02 decides whether that answer is right)", commonAssumptions[1]}}})
 }
 
